@@ -295,3 +295,71 @@ def _only_empty_result_shortcut(g, seen, dpar):
             if not ok:
                 return False
     return True
+
+
+# ---------------------------------------------------------------------------------------------- C6d
+OVERWRITE_SPLITTERS = {'_mzd_mul_even': 0, '_mzd_sqr_even': 0, '_mzd_mul_mp4': 0}
+
+
+def rule_C6d(ctx, prog, label, rule='C6d'):
+    """overwriting recursive products: every path to a return hands the destination C (or a window of C) to a call that
+    writes it - except the path guarded by `C->nrows == 0 || C->ncols == 0`.  A shortcut that returns C untouched leaves the
+    caller's previous contents (or the scratch values of an outer recursion level) in the result."""
+    from .cfg import cfg_of
+    from .symbolic import FuncSym
+    rr = RuleResult(rule, 'overwriting recursive products: no return is reachable without the destination having been handed to a writing call (the empty-destination shortcut excepted)')
+    eff = ctx.effects(prog)
+    for name, di in sorted(OVERWRITE_SPLITTERS.items()):
+        f = prog.funcs.get(name)
+        if f is None or f.body is None:
+            continue
+        rr.instances += 1
+        fs = FuncSym(f)
+        g = cfg_of(f)
+        C = f.params[di]
+        dests = {C.id}
+        for vid, ds in fs.defs.items():
+            for d in ds:
+                d0 = strip(d, casts=True)
+                if d0.kind == 'CallExpr' and callee_name(d0) in ('mzd_init_window',) and strip(d0.kids[1], casts=True).kind == 'DeclRefExpr' and strip(d0.kids[1], casts=True).refid in dests:
+                    dests.add(vid)
+        touch = set()
+        empty_edges = set()
+        for n in g.nodes:
+            if n.ast is None:
+                continue
+            if n.kind in ('stmt',):
+                for c in n.ast.find('CallExpr'):
+                    cn = callee_name(c)
+                    S = eff.summary(cn, f) if cn else None
+                    if S is None:
+                        continue
+                    for i, a in enumerate(c.kids[1:]):
+                        a0 = strip(a, casts=True)
+                        if a0.kind == 'DeclRefExpr' and a0.refid in dests and any(r == ('p', i) and part == 'data' for (r, part) in S.writes):
+                            touch.add(n.id)
+            if n.kind == 'branch':
+                txt = pp(n.ast)
+                if ('%s->nrows == 0' % C.name) in txt or ('%s->ncols == 0' % C.name) in txt:
+                    empty_edges.add((n.id, True))
+        seen = set()
+        st = [g.entry]
+        bad = False
+        while st:
+            n = st.pop()
+            if n.id in seen or n.id in touch:
+                continue
+            seen.add(n.id)
+            if n is g.exit:
+                bad = True
+                break
+            for lab_, m in n.succs:
+                if (n.id, lab_) in empty_edges:
+                    continue
+                st.append(m)
+        rr.ob(not bad, dict(function=name, writing_calls=len(touch)),
+              Finding(rule, '%s|%s' % (rule, name), f.loc, name,
+                      '%s can return without having written its destination `%s` (a shortcut path bypasses every product/addition into %s or its quadrants): '
+                      'the previous contents stay in the result' % (name, C.name, C.name), {}, label))
+    rr.require_floor(2, 'overwriting splitters')
+    return rr
